@@ -37,3 +37,31 @@ add("C06",
     "Blind spot: an atomic, un-prefixed row whose two closures are changed consistently relates to no other row. "
     "Tolerance = half a unit in the last written place of the literals (<= 3 significant digits count as exact).",
     "DESIGN.md 6/C06")
+
+add("C14",
+    "TLC model check of the registry machine (Registry.tla / RegOps.tla: one action per registration call, Well_* invariants, Atomic) + replay "
+    "of every TLC-generated transition into UnitDatabase + TLC judgement of the shipped databases (MC_C14.tla)",
+    "Registry.tla transcribes AddUnit / AddUnitBase / AddCategory (all parameters, checks in the code's order) / Clear and the lookups that "
+    "building a Scalar goes through; TLC checks on every reachable state of the bounded instance that every unit belongs to one type, a "
+    "registered base is first and identity, categories refer to existing types with default/valid units of the type and a default value "
+    "inside the limits, every category and (category, unit) builds a valid Scalar, and that a rejected registration changes nothing. "
+    "Every transition TLC generates (BFS-shortest witness history) is replayed on a fresh UnitDatabase and the outcome family/value of "
+    "each call plus the whole projected registry (both internal maps) are compared with TLC's prediction. The three shipped databases are "
+    "exported and judged by the same predicates; building a Scalar from every category, (category, unit) and unit is validated as a trace.",
+    "Bounded: 2 quantity types, 4 units + 2 legacy spellings, 2 categories, histories of 3 calls (quick: depth 2 exhaustive + 1/12 systematic "
+    "sample of depth 3; thorough: depth 3 exhaustive replay, depth 4 model check). Trusted: TLC, harness/regworld.py projection.",
+    "DESIGN.md 6/C14")
+
+add("C15",
+    "TLC refinement check: Registry.tla (with the code's memo and quantity cache) implements the cache-free RegistryRef.tla (PROPERTY RefSpec), "
+    "plus Pure / MemoCoherent / ICacheCoherent; replay of every generated transition with warm-vs-fresh comparison; TLC-validated trace of "
+    "read-only operations on the real default database",
+    "The specification keeps the two caches of the code as variables (verdict memo incl. negative verdicts, interned quantities by request key) "
+    "with the code's fill and invalidation rules; TLC checks that every outcome equals the outcome computed from the registry alone (refinement "
+    "of the cache-free reference machine), that non-registrations leave the registry unchanged and that both caches are coherent in every "
+    "state; the negative control (no invalidation) is rejected by TLC. Every generated transition is replayed: outcomes, registry, memo and "
+    "cache contents are compared with the prediction, each query is also compared with the same query on a database built from the history's "
+    "registrations only, and the registry projection (valid-unit list contents included) is compared around every step. 1500 (quick) seeded "
+    "read-only / failing operations on the real default database are recorded and validated as a trace (digest unchanged, warm = fresh).",
+    "Bounded as C14. The caches are projected from the two private attributes the property's anchors name.",
+    "DESIGN.md 6/C15")
